@@ -207,4 +207,142 @@ theorem content_preserved {α β} (f : α → β) (xs : List α) :
    fun c st s steps => reservoir_map' f c st s steps xs, fun sp s => riffle_map' f sp s xs,
    fun fl na ni nb nf => whereF_map' f fl na ni nb nf xs, fun le key => sortBy_map' f le key xs⟩
 
+/-! # Phase 2 -/
+
+/-! ### BatchSafe -/
+
+/-- `BatchSafe(F)` for EVERY filter `F` on interactions: nothing in, nothing out; on un-batched
+input it is `F`; on input batched by `Batch(size)` (interactions of one kind) it is
+`Batch(min size N) ∘ F ∘ Unbatch` — the filter sees the plain interactions and its output is
+re-batched with the size of the first batch; an error of `F` is passed on -/
+theorem batchsafe_eq_plain {V} (F : List (Rec V) → Except Err (List (Rec V))) :
+    (batchSafe (liftF F) [] = .ok []) ∧
+    (∀ recs : List (Rec V), recs ≠ [] →
+      batchSafe (liftF F) (recs.map .plain) = (match F recs with | .error e => .error e | .ok ys => .ok (ys.map .plain))) ∧
+    (∀ (size : Nat) (ks : List String) (recs : List (Rec V)) (bs : List (Batched V)),
+      0 < size → ks ≠ [] → recs ≠ [] → uniformKeys ks recs → batchF size recs = .ok bs →
+      batchSafe (liftF F) bs = (match F recs with | .error e => .error e | .ok ys => batchF (min size recs.length) ys)) :=
+  batchsafe_eq_plain' F
+
+example : batchSafe (liftF (fun recs : List (Rec Nat) => .ok (recs.take 1)))
+    [.batch [("a", [1, 2]), ("b", [3, 4])], .batch [("a", [5]), ("b", [6])]] = .ok [.batch [("a", [1]), ("b", [3])]] := rfl
+
+/-! ### Collections of environments -/
+
+/-- `Environments(env_0, env_1, …).<shortcut>()` gives every environment its own filter object:
+in any history of (complete or abandoned) reads of the pipelines, in any order, what environment
+`k` delivers is exactly what its reads deliver when it is alone with a fresh filter object -/
+theorem collection_pointwise {σ E β} (f : Filt σ E β) (envs : Nat → E) (h : List (Nat × Option Nat)) (k : Nat) :
+    ((runColl f envs (fun _ => f.init) h).filter (·.1 = k)).map (·.2)
+      = runAlone f (envs k) f.init ((h.filter (·.1 = k)).map (·.2)) :=
+  collection_pointwise' f envs (fun _ => f.init) h k
+
+/-- hence `.cache()` / `.chunk()` on a collection: every read of environment `k` delivers
+environment `k`'s own interactions (their first `c` when abandoned after `c`) -/
+theorem collection_cache {α} (nSlice : Nat) (envs : Nat → List α) (h : List (Nat × Option Nat)) (k : Nat) :
+    ((runColl (cacheFilt nSlice) envs (fun _ => none) h).filter (·.1 = k)).map (·.2)
+      = ((h.filter (·.1 = k)).map (·.2)).map (readSpec (envs k)) := collection_cache' nSlice envs h k
+
+/-- and every stateless shortcut: each read of environment `k` is its own filter applied to its
+own interactions -/
+theorem collection_stateless {E α} (F : E → Except Err (List α)) (envs : Nat → E)
+    (h : List (Nat × Option Nat)) (k : Nat) :
+    ((runColl (statelessFilt F) envs (fun _ => ()) h).filter (·.1 = k)).map (·.2)
+      = ((h.filter (·.1 = k)).map (·.2)).map (fun c => ((statelessFilt F).read () (envs k) c).2) :=
+  collection_stateless' F envs h k
+
+/-- the freshness is necessary: ONE Cache object shared by two environments hands the first
+environment's interactions to the second (the seeded mutant m3) -/
+theorem collection_shared_cache_counterexample :
+    runShared (cacheFilt 25) (fun k => if k = 0 then [1, 2] else [3]) none [(0, none), (1, none)]
+      = [(0, [1, 2]), (1, [1, 2])] := shared_cex
+
+/-! ### Sort without keys on sparse contexts; missing keys -/
+
+/-- with no keys a sparse context is ordered by the tuple of its key NAMES in insertion order
+(`tuple(dict)`), not by its values -/
+theorem sort_sparse_no_keys_order (b : Bool) (kvs : List (Val × Val)) :
+    sortKey [] b (.sparse kvs) = .ok (kvs.map (·.1)) := sort_sparse_nokeys_key' b kvs
+
+/-- so interactions whose contexts carry the same names, whatever the values, come out in input
+order: `Sort()` is the identity on them -/
+theorem sort_sparse_no_keys_same_names {α} (hasCtx : α → Bool) (ctx : α → Ctx) (names : List Val)
+    (x : α) (xs : List α) (hc : hasCtx x = true)
+    (hn : ∀ a ∈ x :: xs, ∃ kvs, ctx a = .sparse kvs ∧ kvs.map (·.1) = names) :
+    sortF hasCtx ctx [] (x :: xs) = .ok (x :: xs) := sort_sparse_nokeys_same_names' hasCtx ctx names x xs hc hn
+
+/-- witness: contexts `{'a':3}, {'a':2}, {'a':1}` are left in that order -/
+theorem sort_sparse_no_keys_ignores_values :
+    sortF (fun _ => true) (fun (n : Nat) => Ctx.sparse [(.str [97], .num (3 - n))]) [] [0, 1, 2] = .ok [0, 1, 2] := by
+  decide +kernel
+
+/-- `Sort` never orders by a partial key: if it returns, every interaction had every chosen key -/
+theorem sort_ok_all_keys_present {α} (hasCtx : α → Bool) (ctx : α → Ctx) (keys : List Val)
+    (x : α) (xs out : List α) (hc : hasCtx x = true) (h : sortF hasCtx ctx keys (x :: xs) = .ok out) :
+    ∀ a ∈ x :: xs, ∃ k, sortKey keys (ctx x).isSparse (ctx a) = .ok k := sort_ok_all_keys' hasCtx ctx keys x xs out hc h
+
+/-- a key missing from a sparse context counts as 0 -/
+theorem sort_sparse_missing_key_default (keys : List Val) (hk : keys ≠ []) (kvs : List (Val × Val)) :
+    sortKey keys true (.sparse kvs)
+      = .ok (keys.map (fun k => match lookupVal k kvs with | some v => v | none => .num 0)) :=
+  sort_sparse_missing_key' keys hk kvs
+
+/-- an index missing from a dense context raises `IndexError` -/
+theorem sort_dense_missing_key_raises (k : Nat) (vs : List Val) (h : vs.length ≤ k) :
+    sortKey [.num (k : Rat)] false (.dense vs) = .error .indexError := sort_dense_short' k vs h
+
+/-! ### Reservoir with the actual formulas -/
+
+/-- under the stated laws of the arithmetic (`FloatLaws`: uniforms, powers, products and `1-W`
+stay strictly between 0 and 1, where `log` is defined and non-zero) `Reservoir` never raises, for
+every count, mode, seed state and input: the loop's own guard removes zero uniforms, `W` stays in
+(0,1), so `log(r2)/log(1-W)` is defined.  `nT` triples must outnumber the input (the code's
+stream is endless). -/
+theorem reservoir_total_under_laws {R α} (ops : FloatOps R) (U : R → Prop) (laws : FloatLaws ops U)
+    (count : Option Nat) (strict : Bool) (s nT : Nat) (xs : List α)
+    (hl : ∀ n, count = some n → xs.length < ((triples (reservoirState count s xs) nT).filter guardOk).length) :
+    ∃ out, reservoirF ops count strict s nT xs = .ok out := reservoirF_total' ops U laws count strict s nT xs hl
+
+/-- the same for an arbitrary stream of uniform triples -/
+theorem reservoir_total_any_uniforms {R α} (ops : FloatOps R) (U : R → Prop) (laws : FloatLaws ops U)
+    (n : Nat) (strict : Bool) (s : Nat) (ts : List (Nat × Nat × Nat)) (xs : List α)
+    (hts : ∀ t ∈ ts, t.1 < C05.M ∧ t.2.1 < C05.M ∧ t.2.2 < C05.M)
+    (hl : xs.length < (ts.filter guardOk).length) :
+    ∃ out, reservoir (some n) strict s (floatSteps ops n ops.one ts) xs = .ok out :=
+  reservoir_total_laws' ops U laws n strict s ts xs hts hl
+
+/-- the laws are satisfiable (exact rational arithmetic, `U x := 0 < x < 1`) -/
+theorem float_laws_satisfiable : FloatLaws ratOps (fun x : Rat => 0 < x ∧ x < 1) := ratOps_laws
+
+/-- the law that IEEE doubles break is `oneMinus_unit`: once `W < 2^-53` the difference `1-W` is
+1, its logarithm 0, and the loop raises `ZeroDivisionError` (two uniforms `2^-30` in a row with
+count 1; the first skip alone is 1 073 741 819 items, which is why no real stream gets there) -/
+theorem reservoir_underflow_counterexample :
+    floatSteps roundingOps 1 roundingOps.one [(1, 5, 5), (1, 5, 5)]
+      = [.skip 1073741819 0, .raise .zeroDivision] := by decide +kernel
+
+/-! ### Seeds of every kind -/
+
+/-- for an `int`, integral `float`, or any other (`str`-normalised) seed: Shuffle, environment
+Shuffle and Riffle return permutations -/
+theorem seeded_perm {α} (isLogged : α → Bool) (sd lsd : Seed) (sp : Nat) (xs : List α) :
+    (shuffleSeeded sd xs).Perm xs ∧ (eShuffleSeeded isLogged sd lsd xs).Perm xs ∧ (riffleSeeded sp sd xs).Perm xs :=
+  seeded_perm' isLogged sd lsd sp xs
+
+/-- …and which rearrangement / sample they produce depends on the normalised seed and the length
+only (they commute with every relabelling of the interactions) — Shuffle, Riffle, environment
+Shuffle and Reservoir with the float formulas -/
+theorem seeded_det {α β} (f : α → β) (sd lsd : Seed) (xs : List α) :
+    shuffleSeeded sd (xs.map f) = (shuffleSeeded sd xs).map f ∧
+    (∀ sp, riffleSeeded sp sd (xs.map f) = (riffleSeeded sp sd xs).map f) ∧
+    (∀ isLogged : β → Bool,
+      eShuffleSeeded isLogged sd lsd (xs.map f) = (eShuffleSeeded (isLogged ∘ f) sd lsd xs).map f) ∧
+    (∀ {R} (ops : FloatOps R) c strict nT,
+      reservoirF ops c strict sd.norm nT (xs.map f) = (reservoirF ops c strict sd.norm nT xs).map (List.map f)) :=
+  seeded_det' f sd lsd xs
+
+/-- integer seeds that agree modulo 2^30 are the same seed -/
+theorem seed_int_congr (a b : Int) (h : a % (C05.M : Int) = b % (C05.M : Int)) :
+    Seed.norm (.int a) = Seed.norm (.int b) := seed_int_congr' a b h
+
 end Coba.C09
